@@ -50,9 +50,19 @@ def render_blocks(bl):
     return "\n".join(txt) + "\n"
 
 
-def permutations(spec: ModelSpec, rng: random.Random, n=12):
+def permutations(spec: ModelSpec, rng: random.Random, n=12, split_declarations=False):
     """Yield (label, text, moved_across_use) for permutations the statement promises to be inert."""
     base = blocks(spec)
+    if split_declarations:
+        # a component's states / parameters written as two blocks (legal in the base text as well)
+        nb = []
+        for kind, comp, lines in base:
+            if kind != "expressions" and len(lines) >= 2:
+                k = rng.randint(1, len(lines) - 1)
+                nb += [(kind, comp, lines[:k]), (kind, comp, lines[k:])]
+            else:
+                nb.append((kind, comp, lines))
+        base = nb
     yield "identity", render_blocks(base), False
 
     def legal(bl):
@@ -113,6 +123,7 @@ COMMENT_TEXTS = [
     "plain words here", "mV", "m m m", "pA*pF**-1", "2", "1e3", "1/0", "2**3", "(", ")", "((", "'", '"', "**", "/", "x = 3", "__import__('os')", "",
     "#", "## double", "# # #", "ångström µm", "a" * 500, "ms**-1 extra words", "dimensionless", "1", "mV # and more", "x" , "None", "lambda", "e", "pi", "E", "t",
 ]
+COMMENT_TEXTS += ["vertical\x0btab", "form\x0cfeed", "file\x1cseparator", "next\x85line", "line\u2028separator parameters(gain=2.0)", "paragraph\u2029separator", "back\\slash \\x \\u \\N", "tab\there"]
 HANG_TEXTS = ["9**9**9", "9**9**9**9", "10**10**10"]
 
 
@@ -199,6 +210,26 @@ def layout_edits(lines, rng: random.Random):
             out.append((r, t))
     yield ("continuation_inside_parentheses", "layout", join(out))
     yield ("declarations_on_one_line", "layout", _one_line_decls(lines))
+    # a line holding only blanks / a tab between two assignments of a block
+    assigns = [i for i, (r, t) in enumerate(lines) if r == "assign" and i + 1 < len(lines) and lines[i + 1][0] == "assign"]
+    if assigns:
+        i = rng.choice(assigns)
+        yield ("blank_line_inside_block", "layout", join(lines[: i + 1] + [("blank", "")] + lines[i + 1 :]))
+        yield ("spaces_only_line_inside_block", "layout", join(lines[: i + 1] + [("blank", "   ")] + lines[i + 1 :]))
+        yield ("tab_only_line_inside_block", "layout", join(lines[: i + 1] + [("blank", "\t")] + lines[i + 1 :]))
+    # line breaks inside parentheses after an operator and after an operand
+    import re as _re
+
+    for label, pat, rep in (("break_after_operator_in_parentheses", r"\(([^()]*?) ([-+*/]) ", r"(\1 \2\n        "), ("break_after_operand_in_parentheses", r"\(([^()]*?) ([-+*/]) ", r"(\1\n        \2 ")):
+        out, done = [], False
+        for r, t in lines:
+            if r == "assign" and not done and "#" not in t and _re.search(pat, t):
+                out.append((r, _re.sub(pat, rep, t, count=1)))
+                done = True
+            else:
+                out.append((r, t))
+        if done:
+            yield (label, "layout", join(out))
 
 
 def _one_line_decls(lines):
@@ -216,8 +247,8 @@ def _one_line_decls(lines):
     return "\n".join(out) + "\n"
 
 
-UNITS_EDIT = ["mV", "ms**-1", "pA*pF**-1", "1", "furlongs_per_fortnight", "m m m", "**", "(", "1/0", "", "mV extra words", "µm", "uA*uF**-1", "2", "None"]
-DESCS_EDIT = ["plain", "with, comma", "with (parens)", "semi; colon: etc.", "x = 3", "# hash", "", "ünïcödé", "a" * 200]
+UNITS_EDIT = ["mV", "ms**-1", "pA*pF**-1", "1", "furlongs_per_fortnight", "m m m", "**", "(", "1/0", "", "mV extra words", "µm", "uA*uF**-1", "2", "None", "\\uV", "m\\xb2"]
+DESCS_EDIT = ["plain", "with, comma", "with (parens)", "semi; colon: etc.", "x = 3", "# hash", "", "ünïcödé", "a" * 200, "the \\xi gate", "rate \\upsilon_b", "C:\\users\\new\\x", "\\N{DEGREE SIGN}C", "back\\\\slash", "tab\\t newline\\n"]
 
 
 def annotation_edits(spec: ModelSpec, rng: random.Random):
